@@ -59,6 +59,13 @@ Definition new_loc (index height : N) : option (N * N) :=
        if 2 ^ 31 <=? ni then None
        else if height <? k then None else Some (ni, height - k).
 
+(* an index names a node of a tree of [size] leaves: newNodeLocation succeeds and nodeIndex <= (size-1) >> layerIndex *)
+Definition valid_idx (size idx : N) : bool :=
+  match new_loc idx (get_height size) with
+  | Some (ni, li) => ni <=? (size - 1) / 2 ^ li
+  | None => false
+  end.
+
 (* nodeLocation.index(height) *)
 Definition loc_index (ni li height : N) : option N :=
   if height <=? li then None
@@ -209,9 +216,11 @@ Section ProofModel.
     | OutOfFuel => OutOfFuel
     end.
 
-  (* VerifyProof(queryHashes, {size, idxs, siblingHashes}, root) *)
+  (* VerifyProof(queryHashes, {size, idxs, siblingHashes}, root); as repaired it first rejects every index that is
+     neither 0 (absent query) nor the index of a node of a tree of [size] leaves *)
   Definition verify_proof (qs : list Hsh) (size : N) (idxs : list N) (sibs : list Hsh) (root : Hsh) : bool :=
     if size =? 0 then false
+    else if negb (forallb (fun i => (i =? 0) || valid_idx size i) idxs) then false
     else match root_of (calc_path_nodes qs size idxs sibs) with Ok r => heqb r root | _ => false end.
 
   (* GenerateProof: queries resolved to store locations (layer, index) or absent (idx 0) *)
